@@ -518,6 +518,42 @@ impl MinCostFlowSolver {
                 vehicle_type
             );
         }
+        #[cfg(feature = "rssched_verif")]
+        {
+            let endpoint = |n: RsNode| -> (bool, u16, bool) {
+                let (trip_node, right) = match left_rsnode_to_node.get(&n) {
+                    Some(t) => (*t, false),
+                    None => (right_rsnode_to_node[&n], true),
+                };
+                match trip_node {
+                    TripNode::ServiceOrMaintenance(node) => (false, node.idx(), right),
+                    TripNode::Depot(depot) => (true, depot.0, right),
+                }
+            };
+            let arcs = graph
+                .edges()
+                .map(|e| crate::verif::FlowArc {
+                    src: endpoint(rs_graph::traits::FiniteDigraph::src(&graph, e)),
+                    dst: endpoint(rs_graph::traits::FiniteDigraph::snk(&graph, e)),
+                    lower_bound: edges[&e].lower_bound,
+                    upper_bound: edges[&e].upper_bound,
+                    cost: edges[&e].cost,
+                    flow: flow[graph.edge_id(e)].1,
+                })
+                .collect();
+            crate::verif::record(crate::verif::Event::Flow {
+                vehicle_type: vehicle_type.0,
+                arcs,
+                slots: maintenance_slots
+                    .iter()
+                    .map(|(node, count)| (node.idx(), *count))
+                    .collect(),
+                tours: tours
+                    .iter()
+                    .map(|tour| tour.iter().map(|node| node.idx()).collect())
+                    .collect(),
+            });
+        }
         tours
     }
 }
